@@ -60,7 +60,27 @@ fn run_ops_buf<B: Buffer + std::fmt::Debug>(ops: &[Vec<i64>], from_iter: &dyn Fn
     } else {
         0
     };
-    (obs, dbg, vec![same, differs])
+    // equality is the equality of the visible contents, in both directions: a buffer is not equal to a strict prefix of
+    // itself nor to an extension of itself, whichever side it stands on; and equal buffers are equal from both sides
+    let (mut pre_l, mut pre_r, mut ext_l, mut ext_r) = (0i64, 0i64, 0i64, 0i64);
+    if !contents.is_empty() {
+        let mut prefix: B = Default::default();
+        let _ = prefix.extend_from_slice(&contents[..contents.len() - 1]);
+        pre_l = eq(&b, &prefix) as i64;
+        pre_r = eq(&prefix, &b) as i64;
+        let mut empty: B = Default::default();
+        empty.clear();
+        pre_l |= eq(&b, &empty) as i64;
+        pre_r |= eq(&empty, &b) as i64;
+    }
+    let mut longer: B = Default::default();
+    let _ = longer.extend_from_slice(&contents);
+    if longer.push(contents.first().cloned().unwrap_or(0)).is_ok() {
+        ext_l = eq(&b, &longer) as i64;
+        ext_r = eq(&longer, &b) as i64;
+    }
+    let same_r = eq(&other, &b) as i64;
+    (obs, dbg, vec![same, differs, pre_l, pre_r, ext_l, ext_r, same_r])
 }
 
 /// yields exactly the bytes of `s`, but through a filter over a three times longer source: its size_hint is (0, Some(3*len))
